@@ -209,6 +209,18 @@ def confirm(prop, path):
     return 'fault'
 
 
+def clear_subscription_memo():
+    """Empty pane's memo of subscripted generic dataclasses, if it has one under the name this harness knows (an
+    implementation detail of the library: when it is absent there is nothing to clear)."""
+    try:
+        from pane.classes import _make_subclass
+    except ImportError:
+        return
+    f = getattr(_make_subclass, 'cache_clear', None)
+    if f is not None:
+        f()
+
+
 def _addenda(mod):
     from mc import addenda
     return addenda.text(mod.ID)
